@@ -107,6 +107,27 @@ PROPS["C06"] = {
     "assumptions": ["which blocks are function entries is imported from the implementation at the start of each session (entry markers); what happens to them during the session is the model's"],
 }
 
+PROPS["C07"] = {
+    "engine": "rwsim",
+    "level": "exploration",
+    "quick_runs": 3000,
+    "thorough_runs": 60000,
+    "quick_wall": 240,
+    "thorough_wall": 2400,
+    "params": {"scope_session_p": 0.85, "main_p": 0.4},
+    "rule": "seeded scenarios whose sessions register 1-4 scope-based insertions (AllBlocksScope / SingleBlockScope / "
+    "AllFunctionsScope x ENTRY/EXIT/ANYWHERE x literal / regex / MAIN_NAME / ENTRYPOINT_NAME filters) plus insert_at at specific "
+    "places, through a bare RewritingContext or a PassManager with 1-3 passes, with and without function tables; instrumented "
+    "patches record the InsertionContext of every invocation and emit a marker unique per (registration, invocation); distinct = "
+    "(module, sessions) digest; non-trivial = at least one scope-based registration",
+    "real_vs_stub": RW_REAL,
+    "assumptions": [
+        "function exit blocks are read as: last instruction is ret / indirect jump, or branches or falls through to code outside the function (the documented meaning of gtirb_functions.Function.get_exit_blocks)",
+        "the offset of ANYWHERE is only required to be an instruction boundary not after the terminator (bubbling may choose)",
+        "scope sessions contain no deletions or replacements (a scope applies to every block; nothing may be registered after a whole-block deletion)",
+    ],
+}
+
 # (moved below)
 # engines built separately contribute their own entries
 import importlib as _il
